@@ -108,7 +108,7 @@ def check_accounting(case, workdir):
         env["CMI_VERIF_JITTER"] = case["jitter"]
     args = ["--params", "params.yml", "--task-based", "--threads", str(case["threads"])]
     # normal: 1-3 CPU seconds; a hung iteration busy-waits on all threads
-    run = cmirun.run(workdir, args, env, timeout=600, cpu_limit=90)
+    run = cmirun.run(workdir, args, env, timeout=900, cpu_limit=240)
     nsub = case["nsub"][0] * case["nsub"][1] * case["nsub"][2]
     # labels
     if case["threads"] >= 2:
@@ -136,7 +136,7 @@ def check_accounting(case, workdir):
     if run["cpu_exceeded"]:
         recs = cmirun.parse_kv_lines(os.path.join(workdir, "verif_accounting.txt"))
         r.schedule_dependent = case["threads"] > 1
-        return r.fail("run did not finish: 90 s of CPU time used up (a normal run needs 1-3 s): the iteration never ended; %d accounting records so far; last output: %s" % (
+        return r.fail("run did not finish: 240 s of CPU time used up (a normal run needs 1-3 s, up to 20 s on a machine with a load of 130): the iteration never ended; %d accounting records so far; last output: %s" % (
             len(recs), run["out"][-200:].replace("\n", " | ")))
     if run["timeout"]:
         r.inconclusive = "wall-clock limit hit without exhausting the CPU budget (machine overloaded?)"
